@@ -180,6 +180,9 @@ class SSHKnownHosts:
         """Add an exact match entry"""
 
         for host_pat in pattern.split(','):
+            if not host_pat:
+                continue
+
             if host_pat not in self._exact_entries:
                 self._exact_entries[host_pat] = []
 
